@@ -220,10 +220,20 @@ def k_hier(ctx, seqs, method, criterion, t, container=None, optimal=True, empty_
     d = np.array(_condensed(seqs, O.lev))
     if empty_linkage_kws:
         ctx.count("hier_empty_linkage_kws")
-        wl = hc.linkage(d)
-        wc = hc.fcluster(wl, t=t, criterion=criterion)
+        # which defaults apply to an empty dict is not fixed by the property: SciPy's own (single linkage) and the function's documented
+        # defaults (average linkage, optimal ordering) are both accepted; anything else is not a linkage of these distances under either
         out = ctx.call(prs.hierarchical_clustering, list(seqs), linkage_kws={}, cluster_kws=dict(t=t, criterion=criterion))
-        _cmp_hier(ctx, out, wl, wc, "strings:empty-linkage-kws", len(seqs))
+        alts = [hc.linkage(d), hc.linkage(d, method="average", optimal_ordering=True)]
+        ok = False
+        if out.ok:
+            try:
+                L, C = np.asarray(out.value[0], dtype=float), np.asarray(out.value[1])
+                ok = any(L.shape == wl.shape and np.allclose(L, wl, rtol=0, atol=1e-12) and C.tolist() == hc.fcluster(wl, t=t, criterion=criterion).tolist() for wl in alts)
+            except Exception:
+                ok = False
+        if not ok:
+            ctx.violation("hierarchical_clustering:strings:empty-linkage-kws", "with an empty option dict the result is neither SciPy's default linkage nor the documented default linkage of the pairwise distances",
+                          out.describe(), None)
         return
     wl = hc.linkage(d, method=method, optimal_ordering=optimal)
     wc = hc.fcluster(wl, t=t, criterion=criterion)
